@@ -45,3 +45,69 @@ def norm_guards(guards):
 def guard_says(guards, text, truth):
     """Is ``text`` required to have truth value ``truth`` by the guards?"""
     return (text, truth) in norm_guards(guards)
+
+
+def cond_terms(cfg, T, node):
+    """Necessary conditions of ``node`` as [(term, outcome)], leading
+    negations folded into the outcome (semantic guards: independent of
+    early-return / nested-if / swapped-arm spelling)."""
+    out = []
+    for test, outcome in cfg.necessary_conditions(node):
+        t = T.of(test)
+        while t[0] == "un" and t[1] == "not":
+            t = t[2]
+            outcome = not outcome
+        out.append((t, outcome))
+    return out
+
+
+def requires_flag(conds, name, truth=True):
+    """Do the conditions force parameter ``name`` to have ``truth``?"""
+    return (("param", name), truth) in conds
+
+
+_SIZE_ATTRS = {"shape", "size", "empty"}
+_SIZE_CALLS = {"sum", "any", "all", "nunique", "count", "count_nonzero"}
+
+
+def size_dependent(term):
+    """Does the term read an amount of rows / matches (len, shape, size,
+    empty, sum, any, all ...)?"""
+    from .defuse import walk_term
+    for x in walk_term(term):
+        if not isinstance(x, tuple) or not x:
+            continue
+        if x[0] == "attr" and x[2] in _SIZE_ATTRS:
+            return True
+        if x[0] == "mcall" and x[2] in _SIZE_CALLS:
+            return True
+        if x[0] == "call" and str(x[1]).split(".")[-1] in (
+                "len", "sum", "any", "all", "count_nonzero"):
+            return True
+    return False
+
+
+_CMP_NORM = {"<": ("lt", False), "<=": ("le", False), ">": ("lt", True),
+             ">=": ("le", True), "==": ("eq", False), "!=": ("ne", False)}
+_CMP_NEG = {"<": ">=", "<=": ">", ">": "<=", ">=": "<", "==": "!=",
+            "!=": "=="}
+
+
+def norm_cmp(term, outcome=True):
+    """('cmp', op, a, b) holding with ``outcome`` -> ('lt'|'le'|'eq'|'ne',
+    x, y) with x < y / x <= y orientation; None for anything else."""
+    if not (isinstance(term, tuple) and term and term[0] == "cmp"
+            and term[1] in _CMP_NORM):
+        return None
+    op = term[1] if outcome else _CMP_NEG[term[1]]
+    kind, swap = _CMP_NORM[op]
+    a, b = term[2], term[3]
+    if swap:
+        a, b = b, a
+    if kind in ("eq", "ne") and repr(b) < repr(a):
+        a, b = b, a
+    return (kind, a, b)
+
+
+def inside(node, root):
+    return any(n is node for n in ast.walk(root))
